@@ -80,6 +80,17 @@ class C13(Machine):
             keys_seen.append(k)
             for _ in range(rng.choice([1, 1, 2])):
                 pb.step(c0, k="call", obj=mac, name="__call__", args=[B(rng.choice(msgs))], kw={}, tag="mac", role="mac")
+        macs = [mac]
+        if rng.random() < 0.35:
+            # a second HMAC object over the SAME hash object, re-keyed and used concurrently
+            mac2 = pb.obj({"kind": "HMAC", "h": {"obj": h}, "key": B(rbytes(rng, klen(rng.choice(KCLASSES), bb, d)))})
+            macs.append(mac2)
+            c2 = pb.client()
+            for _ in range(rng.randint(1, 3)):
+                if rng.random() < 0.4:
+                    cls = rng.choice(KCLASSES)
+                    pb.step(c2, k="call", obj=mac2, name="setkey", args=[B(rbytes(rng, klen(cls, bb, d)))], kw={}, tag="setkey2:" + cls, kcls=cls, role="setkey")
+                pb.step(c2, k="call", obj=mac2, name="__call__", args=[B(rng.choice(msgs))], kw={}, tag="mac2", role="mac")
         if rng.random() < 0.6:
             c1 = pb.client()
             for _ in range(rng.randint(1, 3)):
@@ -91,7 +102,7 @@ class C13(Machine):
                 else:
                     pb.step(c1, k="call", obj=h, name="initstate", args=[], kw={}, tag="h_init", role="noise")
         plan = pb.finish(rng)
-        plan["meta"].update({"hash": name, "mac": mac, "h": h, "k0": k0.hex()})
+        plan["meta"].update({"hash": name, "mac": mac, "macs": macs, "h": h, "k0": k0.hex()})
         plan["fp"] = [mac]
         return plan
 
@@ -100,7 +111,9 @@ class C13(Machine):
         meta = plan["meta"]
         mac, h = meta["mac"], meta["h"]
         name = meta["hash"]
-        cur = plan["objects"][mac]["key"]
+        macs = meta.get("macs", [mac])
+        curk = {m: plan["objects"][m]["key"] for m in macs}
+        repl = {m: 0 for m in macs}
         vs = []
         probes = {}
         nontrivial = False
@@ -114,14 +127,18 @@ class C13(Machine):
             if s.get("role") == "noise":
                 noise_since = True
                 continue
-            if s.get("obj") != mac:
+            if s.get("obj") not in curk:
                 continue
+            mo = s["obj"]
+            cur = curk[mo]
+            replaced = repl[mo]
             if s["name"] == "setkey":
                 if e["out"][0] != "ok":
                     vs.append(vio("setkey_failed", name, s["tag"], s["id"], {"got": e["out"]}))
                     break
-                cur = s["args"][0]
-                replaced += 1
+                curk[mo] = s["args"][0]
+                repl[mo] += 1
+                replaced = repl[mo]
                 if prev_cls is not None:
                     probes["keyclass_pair_2|%s|%s|%s" % (name, prev_cls, s.get("kcls"))] = 1
                 prev_cls = s.get("kcls")
@@ -136,6 +153,8 @@ class C13(Machine):
                     vs.append(vio("mac_after_setkey" if replaced else "mac_first_key", name, "mac", s["id"],
                                   {"got": e["out"], "fresh": exp, "keylen": len(cur["b"]) // 2, "setkeys_before": replaced}))
                 probes["judged_macs"] = probes.get("judged_macs", 0) + 1
+                if len(macs) > 1:
+                    probes["two_hmac_objects_share_one_hash"] = probes.get("two_hmac_objects_share_one_hash", 0) + 1
                 if replaced:
                     nontrivial = True
                     probes["mac_after_setkey"] = probes.get("mac_after_setkey", 0) + 1
